@@ -533,12 +533,37 @@ def execute(trace, ctx):
                 ctx.violate(P, "reload-after-overwrite", f"loading the replaced file raised {type(e).__name__}: {e}")
     # copy: equal but independent
     try:
+        cold = mt.copy()      # not looked at until the original has been edited (a copy that duplicates lazily is no copy)
         cp = mt.copy()
     except Exception as e:
         ctx.violate(P, "copy-raised", f"MoleculeTop.copy raised {type(e).__name__}: {e}")
         return
     try:
         _check_copy(ctx, P, mt, cp, truth, want, n)
+        # the original is edited further (all of it is the harness's own doing), THEN the untouched copy is read
+        if n >= 1:
+            mt[0].resname = "EDT"
+            mt[n - 1].name = "E9"
+            mt[n - 1].resid = 4242
+            mt.name = "EDITED"
+        adj0 = gen.adjacency(n, [tuple(e) for e in truth["edges"]])
+        want_cold = [(an, rn, ri, i, frozenset(adj0[i])) for i, (an, rn, ri) in enumerate(truth["atoms"])]
+        got_cold = _fields(cold)
+        if got_cold != want_cold or cold.name != truth["name"]:
+            k = next((i for i, (a, b) in enumerate(zip(got_cold, want_cold)) if a != b), min(len(got_cold), n))
+            ctx.violate(P, "copy-not-independent",
+                        f"a copy taken before the original was edited (and not looked at until afterwards) shows the edits: name "
+                        f"{cold.name!r}, atom {k}: {got_cold[k] if k < len(got_cold) else None} vs "
+                        f"{want_cold[k] if k < n else None}", key="cold-copy")
+        if n <= 400:
+            try:
+                if bool(are_connected(cold.atoms)) != want:
+                    ctx.violate(P, "connectivity", f"are_connected on the atoms of a copy taken before the original was edited "
+                                                   f"says {not want}; the copied graph is "
+                                                   f"{'connected' if want else 'not connected'}", key="cold-copy")
+            except RecursionError:
+                pass
+        ctx.probe("cold_copy_read_after_edits")
     except Exception as e:
         import traceback
         ctx.violate(P, "copy-raised", f"working with a copy raised {type(e).__name__}: {e}\n{traceback.format_exc()[-500:]}")
@@ -808,6 +833,13 @@ def execute_c16(trace, ctx):
                 step = "copy A"
                 fa = fa.copy()             # the alternative constructor: what is written is the copy
                 ctx.probe("written_from_a_copy")
+            inspect_first = len(a_text) % 2 == 1
+            if inspect_first:
+                # read, LOOK, write: the caller walks over the parsed object (sections, lines, contents, comments) before
+                # writing it back; looking at it is not an edit
+                step = "inspect A"
+                objects_match(ctx, P, fa, a_text, "first read of A")
+                ctx.probe("object_inspected_before_it_is_written")
             step = "write B"
             fa.write(pb)
             if len(a_text) % 3 == 0 and len(a_text) < 200000:
@@ -826,6 +858,9 @@ def execute_c16(trace, ctx):
                 step = "copy B"
                 fb = fb.copy()
                 ctx.probe("written_from_a_copy")
+            if inspect_first:
+                step = "inspect B"
+                objects_match(ctx, P, fb, a_text, "re-read of B (before it is written again)")
             step = "write C"
             fb.write(pc)
             del fb
